@@ -3,6 +3,8 @@
 # in an isolated copy of /repo + harness (py/mutant.sh) and record the outcome in meta.json.
 #   usage: run_seeds.sh [seed-id ...]      (default: all)
 cd /verif/seeded
+# one mutant directory: serialise concurrent invocations
+exec 9>/tmp/run_seeds.lock; flock 9
 IDS="$@"; [ -z "$IDS" ] && IDS=$(ls -d */ | tr -d /)
 for id in $IDS; do
   prop=$(python3 -c "import json;print(json.load(open('/verif/seeded/$id/meta.json'))['property'])")
